@@ -365,6 +365,22 @@ def check_C11(chk):
             pos += sz
         g.append(f"hfinal id=c{ci}-f obj={o} op=1")
         groups.append(g)
+    # long messages (around 2^8, 2^12, 2^16 and beyond), opaque: odd splits against the one-shot digest
+    for bi, n in enumerate([255, 256, 257, 4095, 4097, 65535, 65536, 65537, 131073] + ([1 << 20, (1 << 20) + 17] if chk.thorough else [])):
+        seedv = r.randint(1, 2 ** 40)
+        full = f"@{seedv},{n},r"
+        m = gen_data_py(seedv, n, 'r')
+        for si, parts in enumerate([[n // 2, n - n // 2], [1, n - 1], [n - 1, 1], [15, 255, n - 270] if n > 300 else [n // 3, n - n // 3],
+                                    [n - 65536 - 3, 65536, 3] if n > 65540 else [5, n - 5]]):
+            if any(p_ < 0 for p_ in parts):
+                continue
+            g = [f"hash id=L{bi}-{si}-one m={full if n > 1500 else hx(m)} learn=1", f"hinit id=L{bi}-{si}-i obj={si}"]
+            pos = 0
+            for k, sz in enumerate(parts):
+                g.append(f"hupdate id=L{bi}-{si}-u{k} obj={si} d={hx(m[pos:pos + sz]) if sz else '-'} op=1")
+                pos += sz
+            g.append(f"hfinal id=L{bi}-{si}-f obj={si} op=1")
+            groups.append(g)
     # the learned one-shot digests themselves, interpreted once per distinct message
     g = [f"hash id=m{n} m={hx(m)} learn=0" for n, m in sorted(msgs.items())]
     groups.extend(chunks(g, 6))
@@ -411,6 +427,11 @@ def check_C11(chk):
         groups.append(g)
     execs = run_exec_groups(exe, groups)
     annotate(execs, groups)
+    for ex in execs:
+        for e in ex:
+            if e.get('e') == 'Hash' and 'mspec' in e:          # long messages are logged by reference: plan data, not an observation
+                mm_ = re.match(r'@(\d+),(\d+),(\w)', e['mspec'])
+                e['m'] = list(gen_data_py(int(mm_.group(1)), int(mm_.group(2)), mm_.group(3)))
     if chk.thorough:
         # 4 GiB + 5 zero bytes, one-shot and split; each takes minutes natively, so they run side by side
         T = (1 << 32) + 5
